@@ -126,7 +126,7 @@ Definition model_agrees (k : case) : bool :=
    nodes that were unknown at some sync, and the dump of the previous syncs (time, dump), latest first. *)
 Record sstate := {
   s_w : world;
-  s_cnodes : list N;
+  s_cnodes : list (N * bool);
   s_seen : list (N * block);
   s_gcd : list id;
   s_unknown : list N;
@@ -156,8 +156,20 @@ Definition owner_justifies (pods : list (N * pod)) (a : alloc) : bool :=
                  end
   end.
 
-Definition node_known (s : sstate) (n : N) : bool := nmem n (s_cnodes s) || nmem n (w_cnodesA (s_w s)).
-Definition node_alive (s : sstate) (n : N) : bool := node_known s n && nmem n (w_knodes (s_w s)).
+(* What the world says about a Calico node.  The datastore is the truth; the syncer's cache is trusted only when it
+   carries a Kubernetes node name.
+     - gone     : not cached as a Kubernetes node and absent from the datastore;
+     - non-k8s  : (not cached as a Kubernetes node and) in the datastore without a Kubernetes OrchRef: such a node is
+                  alive as long as the Calico node exists - nothing it owns may be released;
+     - k8s      : alive as long as the Kubernetes node exists. *)
+Definition cached_k8s (s : sstate) (n : N) : bool :=
+  match mget n (s_cnodes s) with Some true => true | _ => false end.
+Definition node_known (s : sstate) (n : N) : bool :=
+  cached_k8s s n || match mget n (w_cnodesA (s_w s)) with Some _ => true | None => false end.
+Definition node_nonk8s (s : sstate) (n : N) : bool :=
+  negb (cached_k8s s n) && match mget n (w_cnodesA (s_w s)) with Some false => true | _ => false end.
+Definition node_alive (s : sstate) (n : N) : bool :=
+  node_nonk8s s n || (node_known s n && nmem n (w_knodes (s_w s))).
 
 (* ok_release for one released option *)
 Definition ok_release_one (s : sstate) (o : relopt) : bool :=
@@ -247,6 +259,9 @@ Fixpoint ok_lastblock (seen : list (N * block)) (rba : list N) : bool :=
       end
   end.
 
+(* ok_rha: ReleaseHostAffinities (node cleanup) only for a node that is not alive at this sync *)
+Definition ok_rha (s : sstate) (rha : list N) : bool := forallb (fun n => negb (node_alive s n)) rha.
+
 (* ok_books: allocationState (and the other indexes) against the image of the blocks seen *)
 Definition alloc_core_eqb (x y : alloc) : bool :=
   id_eqb (a_id x) (a_id y) && attrs_eqb (a_attrs x) (a_attrs y) && N.eqb (a_seq x) (a_seq y).
@@ -274,9 +289,9 @@ Definition spec_step (grace : option N) (st : sstate * bool) (x : step) : sstate
   | Ev e =>
       let s1 := set_sw s (fst (apply_event false e (s_w s, ctrl0))) in
       (match e with
-       | ECNodeSync n true => {| s_w := s_w s1; s_cnodes := nadd n (s_cnodes s1); s_seen := s_seen s1; s_gcd := s_gcd s1;
+       | ECNodeSync n (Some k) => {| s_w := s_w s1; s_cnodes := mput n k (s_cnodes s1); s_seen := s_seen s1; s_gcd := s_gcd s1;
                                  s_unknown := s_unknown s1; s_dumps := s_dumps s1 |}
-       | ECNodeSync n false => {| s_w := s_w s1; s_cnodes := nrem n (s_cnodes s1); s_seen := s_seen s1; s_gcd := s_gcd s1;
+       | ECNodeSync n None => {| s_w := s_w s1; s_cnodes := mdel n (s_cnodes s1); s_seen := s_seen s1; s_gcd := s_gcd s1;
                                   s_unknown := s_unknown s1; s_dumps := s_dumps s1 |}
        | EBlock b (Some blk) => forget_seen b s1 (mput b blk (s_seen s1))
        | EBlock b None => forget_seen b s1 (mdel b (s_seen s1))
@@ -291,7 +306,10 @@ Definition spec_step (grace : option N) (st : sstate * bool) (x : step) : sstate
                    s_dumps := s_dumps s |} in
       let ok1 := forallb (ok_release_one s0) (so_rel out) && forallb (ok_grace_one grace s0) (so_rel out)
                  && ok_handles s0 (so_rel out) && ok_lastblock (s_seen s0) (so_rba out)
-                 && ok_grace_dump grace s0 (o_dump o) in
+                 && ok_grace_dump grace s0 (o_dump o) && ok_rha s0 (so_rha out)
+                 && forallb (fun b => match mget b (s_seen s0) with
+                                      | Some blk => match b_aff blk with AffHost n => negb (node_nonk8s s0 n) | _ => true end
+                                      | None => true end) (so_rba out) in
       (* effects of the calls: released allocations and released blocks are gone *)
       let seen' := fold_left (fun sn b => mdel b sn) (so_rba out) (s_seen s0) in
       let gcd' := filter (fun i => negb (nmem (id_block i) (so_rba out))) (map r_id (so_rel out) ++ s_gcd s0) in
@@ -320,7 +338,12 @@ Definition diag_step (grace : option N) (st : sstate * list (list bool)) (x : st
       let d := o_dump o in
       let tr := tracked s' in
       (s', acc ++ [[forallb (ok_release_one s0) (so_rel out); forallb (ok_grace_one grace s0) (so_rel out);
-                    ok_handles s0 (so_rel out); ok_lastblock (s_seen s0) (so_rba out); ok_grace_dump grace s0 d;
+                    ok_handles s0 (so_rel out);
+                    ok_lastblock (s_seen s0) (so_rba out) && ok_rha s0 (so_rha out)
+                    && forallb (fun b => match mget b (s_seen s0) with
+                                         | Some blk => match b_aff blk with AffHost n => negb (node_nonk8s s0 n) | _ => true end
+                                         | None => true end) (so_rba out);
+                    ok_grace_dump grace s0 d;
                     set_eqb alloc_core_eqb (d_allocs d) tr;
                     set_eqb nid_eqb (d_bynode d) (flat_map (fun a => if N.eqb (a_node a) 0 then [] else [(a_node a, a_id a)]) tr);
                     set_eqb nid_eqb (d_byhandle d) (map (fun a => (a_handle a, a_id a)) tr);
